@@ -99,6 +99,7 @@ func (f *connFeeder) do(b []byte) (n int, err error) {
 	case <-f.done:
 		return 0, io.EOF
 	}
+	verifYield("do:sent")
 	// get the result from the worker
 	select {
 	case r := <-f.result:
@@ -118,7 +119,9 @@ func (f *connFeeder) run() {
 			return
 		}
 		// invoke the underlying method
+		verifYield("run:before-source")
 		n, err := f.source(b)
+		verifYield("run:after-source")
 		// send the result back to the requester
 		select {
 		case f.result <- feedResult{n: n, err: err}:
